@@ -16,6 +16,7 @@ Inductive obs : Set :=
   | OUnresolved
   | OTooLarge                                  (* LayoutError::TooLarge *)
   | OOverflow                                  (* arithmetic-overflow panic: the model never produces it *)
+  | ODirty                                     (* rejected, but offsets were written: never produced either *)
   | ONeedsContext
   | OOther.
 
@@ -48,7 +49,7 @@ Definition obs_eqb (a b : obs) : bool :=
   match a, b with
   | OLaid x, OLaid y => list_eqb (oeqb (list_eqb N.eqb)) x y
   | OSizeAlign s a, OSizeAlign s' a' => (s =? s') && (a =? a')
-  | ODiag, ODiag | OUnresolved, OUnresolved | OOverflow, OOverflow | OTooLarge, OTooLarge
+  | ODiag, ODiag | OUnresolved, OUnresolved | OOverflow, OOverflow | OTooLarge, OTooLarge | ODirty, ODirty
   | ONeedsContext, ONeedsContext | OOther, OOther => true
   | _, _ => false
   end.
